@@ -267,33 +267,47 @@ PROPS = {
         ],
     },
     "C19": {
-        "title": "File log writer (bookkeeping part)",
+        "title": "File log writer: rotation step and file-set bookkeeping",
         "design_ref": "DESIGN.md section 3 (C19)",
-        "technique": "Verus contracts on the real PrefixFileSet operations and PrefixFile's ordering against a priority-queue view with the "
-                     "representation invariant len == sum of file lengths",
-        "level_text": "Deductive proof for every file set and every sequence of operations (by induction over the contracts), unbounded: push, "
-                      "delete_oldest, delete_older_than and delete_oldest_while_over_max_len preserve len == sum of the lengths of the files "
-                      "in the set; deletions remove oldest first (the remainder is a suffix of the pop order); delete_oldest_while_over_max_len(k) "
-                      "ends with total <= k; delete_older_than leaves no file older than the cut-off; the byte counter never underflows or "
-                      "overflows; both loops terminate; PrefixFile's Ord is the reversed mtime order.",
-        "level_note": "Only the bookkeeping clauses of C19 are claimed. Not covered (no contract within reach): the writer thread loop, "
-                      "LogFile::create, PrefixFileSet::new's directory scan (Path::starts_with -- pre-existing files), exactly-once / ordering of "
-                      "lines across rotation, restarts. Assumed: std BinaryHeap as a priority queue over PrefixFile's Ord, SystemTime ordering "
-                      "and subtraction, remove_file.",
-        "verus": ["logset"],
+        "technique": "Verus contracts on the real PrefixFileSet operations and PrefixFile's ordering (priority-queue view, invariant len == sum of "
+                     "file lengths) and on the body of the writer thread's per-event loop, extracted as a loop-body region of "
+                     "LogFileWriter::start_writer_thread and proved against a step contract over (buffer, current file, file set) using "
+                     "those operation contracts; LogFile::write_all / age on their real text",
+        "level_text": "Deductive proof for every file set, every current file, every event and every configuration in u64 (no bound): one "
+                      "writer step appends the event's line exactly once and whole, after everything written before -- to the current file, "
+                      "only if that keeps it within the per-file size and age, or else as the first line of a fresh file after the old one "
+                      "was handed to the file set with its full recorded length; after the step the total size of the set plus the current "
+                      "file exceeds the keep-size by at most that one event, no file older than the keep-age remains, what remains of the set "
+                      "is a suffix of the pop order (oldest deleted first), the length bookkeeping of file and set is exact, the buffer is "
+                      "empty again, and no arithmetic under- or overflows (the keep-size subtraction did: genuine defect, fixed). "
+                      "PrefixFileSet: push, delete_oldest, delete_older_than, delete_oldest_while_over_max_len preserve len == sum of lengths, "
+                      "delete oldest first, reach total <= k / no file older than the cut-off, terminate; PrefixFile's Ord is reversed mtime.",
+        "level_note": "The step contract is an inductive invariant of the `for event in receiver` loop (its precondition is re-established by "
+                      "its postcondition); the loop itself, the channel and the thread are not modelled. `.unwrap()` on the step's I/O calls "
+                      "is taken as 'the thread ends on I/O failure' (rule R11): 'the writer keeps running' is proved only in the sense that "
+                      "nothing but a failed I/O call can panic. Assumed: LogFile::create gives an empty file with len 0, File::write_all "
+                      "appends, LogEvent::write_jsonl appends one non-empty line, one clock reading per step, std BinaryHeap as a priority "
+                      "queue over PrefixFile's Ord, SystemTime / Duration ordering and subtraction, remove_file. Not covered: "
+                      "PrefixFileSet::new's directory scan (files of earlier runs), the start-up sequence before the loop, restarts.",
+        "verus": ["logset", "logwriter"],
         "verus_thorough": [],
         "kani": [],
         "witness": "c19",
         "assumptions": [
             "assumed contract: std::collections::BinaryHeap peek/pop return a greatest element under Ord (an oldest file, given the proved reversal), push inserts",
-            "assumed contract: SystemTime is totally ordered by a timestamp; `now - duration` is defined when representable (precondition)",
+            "assumed contract: SystemTime is totally ordered by a timestamp; `now - duration` is defined when representable (precondition); Duration ordering; duration_since",
             "assumed: std::fs::remove_file returns a Result and has no effect on the in-memory set",
+            "assumed: LogFile::create returns an empty file with len 0; std::fs::File::write_all appends the slice on Ok; LogEvent::write_jsonl appends the event's line (>= 1 byte) to the buffer",
+            "assumed: the writer step reads the clock once (checked syntactically each run) and the keep-age can be subtracted from that reading",
+            "rule R11: `.unwrap()` of the step's I/O results is where the thread may end; states after it exist only for Ok",
+            "sizes are below 2^64: set total + current file + line <= u64::MAX (precondition)",
             "format!(..) error texts are opaque (R5)",
         ],
         "not_covered": [
-            "LogFileWriter::start_writer_thread loop (thread, channels, std::fs), LogFile::create / write_all",
-            "PrefixFileSet::new (directory scan with Path::starts_with; files of earlier runs)",
-            "no loss / duplication / reordering of lines across rotation; behaviour across restarts",
+            "the thread, the channel (acceptance order = receive order), the loop header `for event in receiver`, sync_all at the end",
+            "LogFile::create's body (file naming, create_new), the start-up sequence of start_writer_thread before the loop",
+            "PrefixFileSet::new (directory scan with Path::starts_with; files of earlier runs); behaviour across restarts",
+            "panics caused by failing I/O (disk full): the writer thread ends",
         ],
     },
     "C03": {
@@ -400,7 +414,7 @@ PROPS = {
 # are listed in its evidence as notes (they are another property's alarm, or an unproved supporting contract).
 UNIT_OWNER = {
     "time": "C16", "chunked": "C07", "headers": "C14", "copy": "C09", "body": "C09", "conn": "C05", "head": "C01",
-    "parse": "C02", "logset": "C19", "framing": "C03", "respguard": "C06", "respwrite": "C06", "errresp": "C20",
+    "parse": "C02", "logset": "C19", "logwriter": "C19", "framing": "C03", "respguard": "C06", "respwrite": "C06", "errresp": "C20",
 }
 SCOPE = {
     # total request reading also needs the parsers to be panic-free
